@@ -829,6 +829,24 @@ func (lc *laneCtx) offerBlock(orig []byte, mb []byte, transform, tag string) {
 	} else {
 		r.Count(pre+".refused", 1)
 	}
+	// the same bytes offered to a node in block-publisher (arbitrating) configuration holding the
+	// same chain: a publisher node receives blocks from peers too and must refuse them alike
+	if arb := lc.l.Arb; arb != nil && !lc.dead {
+		r.Count(pre+".publisher-mode.offered", 1)
+		if p, msg, frame := vf.Recover(func() { err = arb.V.ExecuteSignedBlock(sb) }); p {
+			if !capped("panic/execute-arb/" + frame) {
+				lc.violation("panic", map[string]string{"call": "ExecuteSignedBlock(publisher-mode)", "frame": frame, "msg": msg, "transform": transform}, w)
+			}
+		} else if err == nil {
+			r.Count(pre+".publisher-mode.ACCEPTED", 1)
+			lc.dead = true
+			if !capped("accepted/blockbytes-arb/" + transform) {
+				lc.violation("mutant-accepted", map[string]string{"role": "block-acceptance(publisher-mode node)", "object": "block", "transform": transform}, w)
+			}
+		} else {
+			r.Count(pre+".publisher-mode.refused", 1)
+		}
+	}
 }
 
 var shapes = [][2]int{{1, 1}, {2, 2}, {1, 2}, {2, 1}, {3, 2}}
